@@ -1,7 +1,8 @@
 (** C03 property theorems (proofs in Proofs_C03.v), about the reducer specification
     ([leaf_reduce] for one group of leaves, [zipred] across lists). The layout-level model [zl]
     and the implementation are tied to it by correspondence. *)
-From AwkV Require Import Layout Ops_Reduce Proofs_C03.
+From AwkV Require Import Base Layout Valid Types AtAxis Ops_Reduce Proofs_C03 Proofs_AtAxis Proofs_Reduce Proofs_Reduce2 Proofs_Reduce3.
+Import ListNotations. Open Scope Z_scope.
 
 (* an empty group yields the identity ... *)
 Theorem empty_group_yields_identity : forall dt,
@@ -64,3 +65,116 @@ Theorem group_is_column : forall p (ls : list (Z * list value)),
                             end) ls.
 Proof. exact column_spec. Qed.
 Print Assumptions group_is_column.
+
+(* ---- refinement: the layout-level model [reduce_model] (local reduction at the innermost lists, column-wise
+        non-local reduction above) computes exactly the value-level specification, for EVERY axis, reducer,
+        mask_identity and keepdims, on every valid layout whose used leaf data is finite ([fin]: no NaN/inf);
+        unions and strings give the same refusal on both sides (proofs in Proofs_Reduce*.v) ---- *)
+Theorem reduce_refines_spec_partial : forall r axis mask keepdims c vs,
+  Valid None c -> fin c = true -> to_list c = Ok vs ->
+  obs (reduce_model r axis mask keepdims c) = reduce_spec r axis mask keepdims (type_of c) vs.
+Proof. exact Proofs_Reduce2.reduce_refines_spec_partial. Qed.
+Print Assumptions reduce_refines_spec_partial.
+
+Theorem reduce_refines_cases_partial : forall r axis mask keepdims c vs,
+  Valid None c -> fin c = true -> to_list c = Ok vs ->
+  match reduce_model r axis mask keepdims c with
+  | Ok c' => exists ws, to_list c' = Ok ws /\ reduce_spec r axis mask keepdims (type_of c) vs = Ok ws
+  | Err EValue => reduce_spec r axis mask keepdims (type_of c) vs = Err EValue
+  | Err _ => False
+  end.
+Proof. exact Proofs_Reduce2.reduce_refines_cases_partial. Qed.
+Print Assumptions reduce_refines_cases_partial.
+
+Theorem reduce_local_refines_spec_partial : forall r mask keepdims c vs,
+  Valid None c -> fin c = true -> to_list c = Ok vs ->
+  obs (reduce_model r (-1) mask keepdims c) = reduce_spec r (-1) mask keepdims (type_of c) vs.
+Proof. exact Proofs_Reduce2.reduce_local_refines_spec_partial. Qed.
+Print Assumptions reduce_local_refines_spec_partial.
+
+Theorem zl_computes_zipred_partial : forall r mask c groups vs,
+  Valid None c -> frag1 c = true -> fin c = true -> reducible (type_of c) = true ->
+  to_list c = Ok vs -> in_range (zlen vs) groups ->
+  exists c' ws, zl r mask None c groups = Ok c' /\ to_list c' = Ok ws /\
+                mapM (fun G => do xs <- gatherG vs G; zipred r mask (type_of c) xs) groups = Ok ws.
+Proof. exact Proofs_Reduce.zl_spec. Qed.
+Print Assumptions zl_computes_zipred_partial.
+
+Theorem nonlocal_positions_are_columns : forall (vs0 : list value) sub lsG,
+  mapS (cut1 vs0) sub = Ok lsG ->
+  sub_maxlen sub = fold_left Z.max (map (fun jl : Z * list value => zlen (snd jl)) lsG) 0 /\
+  forall q, 0 <= q -> gatherG vs0 (sub_col q sub) = Ok (column q lsG).
+Proof. exact Proofs_Reduce.cols_column. Qed.
+Print Assumptions nonlocal_positions_are_columns.
+
+Theorem local_reduction_of_a_list_node_partial : forall r mask keepdims p c cc vs,
+  list_content c = Some cc -> Valid None cc -> frag1 cc = true -> fin cc = true -> reducible (type_of cc) = true ->
+  to_list c = Ok vs ->
+  exists c' ws, reduce_g r mask keepdims p c = Ok c' /\ to_list c' = Ok ws /\
+                mapM (fun v => match v with VList l => reduce_f r mask keepdims (type_of cc) l | _ => Err EValue end) vs = Ok ws.
+Proof. exact Proofs_Reduce2.reduce_g_spec. Qed.
+Print Assumptions local_reduction_of_a_list_node_partial.
+
+Theorem missing_values_are_skipped : forall r mask keepdims dt l,
+  is_arg r = false ->
+  reduce_f r mask keepdims (TOpt (TNum dt)) l =
+  reduce_f r mask keepdims (TNum dt) (filter (fun v => negb (is_none v)) l).
+Proof. exact Proofs_Reduce3.missing_values_are_skipped. Qed.
+Print Assumptions missing_values_are_skipped.
+
+Theorem missing_pairs_are_dropped : forall r mask t pre j post,
+  zipred r mask (TOpt t) (pre ++ (j, VNone) :: post) = zipred r mask (TOpt t) (pre ++ post).
+Proof. exact Proofs_Reduce3.missing_pairs_are_dropped. Qed.
+Print Assumptions missing_pairs_are_dropped.
+
+Theorem argminmax_positions_count_missing : forall mask dt l j,
+  0 <= j ->
+  (reduce_f RArgmin mask false (TOpt (TNum dt)) l = Ok (VNum (DZ j)) ->
+   exists v z, get l j = Ok v /\ leaf_int v = Ok z /\
+               forall i v' z', get l i = Ok v' -> leaf_int v' = Ok z' -> z <= z' /\ (i < j -> z < z')) /\
+  (reduce_f RArgmax mask false (TOpt (TNum dt)) l = Ok (VNum (DZ j)) ->
+   exists v z, get l j = Ok v /\ leaf_int v = Ok z /\
+               forall i v' z', get l i = Ok v' -> leaf_int v' = Ok z' -> z' <= z /\ (i < j -> z' < z)).
+Proof. exact Proofs_Reduce3.argminmax_positions_count_missing. Qed.
+Print Assumptions argminmax_positions_count_missing.
+
+Theorem keepdims_wraps_in_length_one : forall r mask t l,
+  reduce_f r mask true t l = rmap (fun v => VList [v]) (reduce_f r mask false t l).
+Proof. exact Proofs_Reduce3.keepdims_wraps_in_length_one. Qed.
+Print Assumptions keepdims_wraps_in_length_one.
+
+Theorem min_max_of_nonempty_is_member_and_bound : forall mask dt l,
+  l <> [] ->
+  (dt <> DBool ->
+   (exists m, leaf_reduce RMin mask dt l = Some (VNum (DZ m)) /\ In m (map snd l) /\ forall x, In x (map snd l) -> m <= x) /\
+   (exists m, leaf_reduce RMax mask dt l = Some (VNum (DZ m)) /\ In m (map snd l) /\ forall x, In x (map snd l) -> x <= m)) /\
+  leaf_reduce RMin mask DBool l = leaf_reduce RAll mask DBool l /\
+  leaf_reduce RMax mask DBool l = leaf_reduce RAny mask DBool l.
+Proof. exact Proofs_Reduce3.min_max_of_nonempty_is_member_and_bound. Qed.
+Print Assumptions min_max_of_nonempty_is_member_and_bound.
+
+Theorem any_all_are_exists_forall : forall mask dt l,
+  l <> [] \/ mask = false ->
+  (exists b, leaf_reduce RAny mask dt l = Some (VBool b) /\ (b = true <-> exists x, In x (map snd l) /\ x <> 0)) /\
+  (exists b, leaf_reduce RAll mask dt l = Some (VBool b) /\ (b = true <-> forall x, In x (map snd l) -> x <> 0)).
+Proof. exact Proofs_Reduce3.any_all_are_exists_forall. Qed.
+Print Assumptions any_all_are_exists_forall.
+
+Theorem prod_is_wrapped_product : forall mask dt l,
+  l <> [] \/ mask = false -> leaf_reduce RProd mask dt l = Some (VNum (DZ (wrap_acc dt (prodZ (map snd l))))).
+Proof. exact Proofs_Reduce3.prod_is_wrapped_product. Qed.
+Print Assumptions prod_is_wrapped_product.
+
+Theorem count_nonzero_counts : forall mask dt l,
+  l <> [] \/ mask = false ->
+  let k := zlen (filter nz (map snd l)) in
+  leaf_reduce RCountNonzero mask dt l = Some (VNum (DZ k)) /\ 0 <= k <= zlen l /\
+  (k = zlen l <-> forall x, In x (map snd l) -> x <> 0).
+Proof. exact Proofs_Reduce3.count_nonzero_counts. Qed.
+Print Assumptions count_nonzero_counts.
+
+Theorem positions_matter_to_arg_reducers_only : forall r mask dt l l',
+  is_arg r = false -> map snd l = map snd l' -> leaf_reduce r mask dt l = leaf_reduce r mask dt l'.
+Proof. exact Proofs_Reduce3.leaf_reduce_positions. Qed.
+Print Assumptions positions_matter_to_arg_reducers_only.
+
